@@ -385,6 +385,54 @@ func VH_scopeFn(recursive int) {
 	scCompare()
 }
 
+// VH_scopeLate (C03): the same identifier node evaluated twice with a binding appearing in
+// between. An outer binding; then, inside a container scope (0: block, 1: body of a function
+// that is called once, 2: body of a for loop), a function whose one-statement body uses a
+// symbolic name, a call, an arbitrary statement (declaration / assignment / read of a
+// symbolic name: it may introduce a nearer binding of the name the function uses), and a
+// second call. "The innermost binding at the moment of use" must hold for the second call as
+// for the first, whatever the first evaluation found.
+func VH_scopeLate(container int) {
+	scN, scOutN, scFnN, scNextV, scLine, scDepth = 0, 0, 0, 0, 0, 0
+	scErr = false
+	outer := scName()
+	fname := scName()
+	call := func(nm token.Token) ast.Stmt {
+		scLine++
+		return &ast.ExpressionStatement{Expression: &ast.Call{Callee: &ast.Identifier{Name: nm, Line: scLine}, Paren: token.Token{Type: token.RIGHT_PAREN, Lexeme: ")", Line: scLine}}}
+	}
+	fdecl := &ast.FunctionStmt{Name: fname, Body: []ast.Stmt{genScopeStmt(0, true)}}
+	c1 := call(fname)
+	mid := genScopeStmt(0, false)
+	c2 := call(fname)
+	last := genScopeStmt(0, false)
+	inner := []ast.Stmt{fdecl, c1, mid, c2, last}
+	prog := []ast.Stmt{&ast.VarStmt{Name: outer, Initializer: scLit(), Line: outer.Line}}
+	switch container {
+	case 0:
+		prog = append(prog, &ast.BlockStmt{Block: inner})
+	case 1:
+		g := scName()
+		prog = append(prog, &ast.FunctionStmt{Name: g, Body: inner}, call(g))
+	default:
+		nm := scName()
+		init := &ast.VarStmt{Name: nm, Initializer: scLit(), Line: nm.Line}
+		prog = append(prog, &ast.ForStmt{Initializer: init, Condition: &ast.Literal{Value: true}, Body: &ast.BlockStmt{Block: append(inner, &ast.BreakStmt{Line: scLine})}})
+	}
+	top := scNew(scNew(-1))
+	for _, s := range prog {
+		if !scExec(s, top) {
+			break
+		}
+	}
+	utils.HadError = false
+	utils.HadRuntimeError = false
+	verifClearEvents()
+	in := NewInterpreter()
+	in.Interpret(prog, false)
+	scCompare()
+}
+
 func scCompare() {
 	n := verifNumEvents()
 	k := 0
